@@ -36,7 +36,7 @@ FAILFAST = dict(pkg="./cache/disk", test="TestVerifFailFastRace", name="failfast
 
 CONFIG = dict(pkg="./config", test="TestVerifConfig", name="config", diff=True)
 
-LOAD = dict(pkg="./cache/disk", test="TestVerifLoad", name="load", diff=True, also=["C09", "C04", "C15"])
+LOAD = dict(pkg="./cache/disk", test="TestVerifLoad", name="load", diff=True, also=["C09", "C04", "C15", "C20"])
 
 CRASH = dict(pkg="./cache/disk", test="TestVerifCrash", name="crash", diff=False)
 
@@ -101,7 +101,7 @@ PROPS = {
         level_text="Theorems on M2 (casblob): for every conformant file (any chunk size, any frames decoding to the chunks) and every offset below the size, both readers return exactly data[offset:] (raw: the bytes; zstd: a stream decoding to them); the writer's output is conformant; readers are total. ByteStream.Read serves every in-range offset/limit (M10 sendLoop). Harness: every server read path x storage modes x zstd implementations, read-through at every offset, the slow path across storage modes, damaged entries, overlapping reads after a failed one, 2..4 readers (plain/zstd, offsets on and off chunk boundaries) opened before any of them is read with uploads in between.",
         level_note=NOTE + "codec laws are hypotheses (satisfied by a proved toy instance); the real codecs are exercised by the direct oracle only.", technique=TECH),
     "C20": dict(
-        lean="BR.Props.C20", runs=[BLOB, BLOBREAL, GRPCPROXY, S3PROXY, HTTPPROXY, AZBLOB], trusted_base=COMMON_TB, assumptions=[],
+        lean="BR.Props.C20", runs=[BLOB, BLOBREAL, GRPCPROXY, S3PROXY, HTTPPROXY, AZBLOB, LOAD], trusted_base=COMMON_TB, assumptions=[],
         level_text="Header encode/parse round trip and reader conformance theorems on M2; layout constants, file-name shapes and regexps regenerated from the source and compared by Bridge theorems; files from an independent encoder/reader in the harness; objects stored through the real S3 and HTTP back-end clients into in-process servers must appear under the published names for several prefix shapes and read back unchanged. Also the Azure client against an in-process container (doubled prefix pinned), the gRPC client's resource names with and without a stated size, every statement deriving an object name in the back-end clients pinned by the translator (key_sites_pinned), conformant files with streaming frames and windows up to 32 MiB.",
         level_note=NOTE + "published layout written once in Lean as the specification.", technique=TECH),
     "C01": dict(
